@@ -308,14 +308,17 @@ func (e *Evaluator) evalForStmt(node *ast.ForStmt, env *object.Env) object.Objec
 
 	// loop through the block until the user's condition is false
 	for {
-		cond := e.Eval(node.Condition, newEnv)
+		// an absent condition means "true"
+		if node.Condition != nil {
+			cond := e.Eval(node.Condition, newEnv)
 
-		if isError(cond) {
-			return cond
-		}
+			if isError(cond) {
+				return cond
+			}
 
-		if !isTruthy(cond) {
-			break
+			if !isTruthy(cond) {
+				break
+			}
 		}
 
 		block := e.Eval(node.Block, newEnv)
@@ -326,29 +329,30 @@ func (e *Evaluator) evalForStmt(node *ast.ForStmt, env *object.Env) object.Objec
 
 		blocks.WriteString(block.String())
 
+		if hasBreakStmt(block) {
+			break
+		}
+
+		if node.Post == nil {
+			continue
+		}
+
 		post := e.Eval(node.Post, newEnv)
 
 		if isError(post) {
 			return post
 		}
 
-		if node.Init == nil || node.Post == nil {
+		// the value of the post statement becomes the loop variable
+		initStmt, hasLoopVar := node.Init.(*ast.AssignStmt)
+
+		if !hasLoopVar {
 			continue
 		}
 
-		varName := node.Init.(*ast.AssignStmt).Name.Value
-
-		err := newEnv.Set(varName, post)
+		err := newEnv.Set(initStmt.Name.Value, post)
 		if err != nil {
 			return e.newError(node, "%s", err.Error())
-		}
-
-		if hasBreakStmt(block) {
-			break
-		}
-
-		if hasContinueStmt(block) {
-			continue
 		}
 	}
 
